@@ -2,7 +2,7 @@
 import ast
 
 from .. import serial
-from ..core import AnalysisError, U, atoms, bind_call, paths_of, positional_params
+from ..core import AnalysisError, U, atoms, bind_call, path_facts, paths_of, positional_params
 from ..registries import qmodules
 
 TITLE = "state_dict save/load round trips reproduce the quantized model exactly"
@@ -81,32 +81,100 @@ def run(chk):
 
 def qtensor_save(chk):
     """QTensor.save_to_state_dict: leaves are written detached, nested subclasses recursed with prefix + name + '.'; meta values copied."""
+    from ..core import loop_body_paths
     repo = chk.repo
     ci = repo.cls("QTensor")
     fn = ci.own("save_to_state_dict")
     site = f"{ci.mod.rel}:{fn.lineno}"
-    inner = [n for n in ast.walk(fn) if isinstance(n, ast.FunctionDef) and n is not fn]
-    if len(inner) != 1:
-        chk.unknown("C10.R1", site, "QTensor.save_to_state_dict: recursive helper not found")
+    qn = "QTensor.save_to_state_dict"
+    # the function that flattens: the method itself, a closure of it, or a module-level helper it calls
+    cands = [n for n in ast.walk(fn) if isinstance(n, ast.FunctionDef)]
+    for n in ast.walk(fn):
+        if isinstance(n, ast.Call) and isinstance(n.func, ast.Name):
+            r = repo.resolve(ci.mod, n.func.id)
+            if r is not None and isinstance(r[1], ast.FunctionDef):
+                cands.append(r[1])
+    hs_ = [c for c in cands if any(isinstance(x, ast.Call) and isinstance(x.func, ast.Attribute) and x.func.attr == "__tensor_flatten__" for x in ast.walk(c))]
+    h = min(hs_, key=lambda c: sum(1 for _ in ast.walk(c))) if hs_ else None
+    if h is None:
+        chk.unknown("C10.R1", site, f"{qn}: the function calling __tensor_flatten__() was not found")
         return
-    h = inner[0]
-    t, dest, prefix, keep = positional_params(h)[:4]
-    src = U(h)
-    leaf = f"if type(inner_tensor) == torch.Tensor:" in src or "if type(inner_tensor) is torch.Tensor:" in src
-    stores = [n for n in ast.walk(h) if isinstance(n, ast.Assign) and isinstance(n.targets[0], ast.Subscript) and U(n.targets[0].value) == dest]
-    keys = {U(s.targets[0].slice): U(s.value) for s in stores}
-    ok_leaf = keys.get(f"{prefix} + name") in (f"inner_tensor if {keep} else inner_tensor.detach()",) and leaf
-    rec = [n for n in ast.walk(h) if isinstance(n, ast.Call) and isinstance(n.func, ast.Name) and n.func.id == h.name]
-    ok_rec = len(rec) == 1 and [U(a) for a in rec[0].args] == ["inner_tensor", dest, f"{prefix} + name + '.'", keep]
-    flat = f"inner_tensors, meta = {t}.__tensor_flatten__()" in src and f"getattr({t}, name)" in src
-    ok_meta = "for name, value in meta.items():" in src and keys.get(f"{prefix} + name") is not None and any(U(s.value) == "value" for s in stores)
-    chk.require("C10.R1", site, ok_leaf and flat, "QTensor.save_to_state_dict: every plain inner tensor of __tensor_flatten__ is stored under prefix + name (detached unless keep_vars)", "QTensor.save_to_state_dict", "leaf tensors stored", "any frozen model: a payload/scale is missing from the state_dict")
-    chk.require("C10.R1", site, ok_rec, "QTensor.save_to_state_dict: a nested tensor subclass is flattened recursively under prefix + name + '.'", "QTensor.save_to_state_dict", "nested prefix", "frozen int2/int4 weights: the packed payload keys do not match what the loader pops")
-    chk.require("C10.R1", site, ok_meta, "QTensor.save_to_state_dict: every meta entry is stored under prefix + name", "QTensor.save_to_state_dict", "meta stored", "any frozen model: qtype/axis/size are missing")
-    calls = [n for n in ast.walk(fn) if isinstance(n, ast.Call) and isinstance(n.func, ast.Name) and n.func.id == h.name and n not in rec]
-    ok_entry = len(calls) == 1 and [U(a) for a in calls[0].args] == ["self"] + positional_params(fn)[1:4]
-    chk.require("C10.R1", site, ok_entry, "QTensor.save_to_state_dict starts the recursion on self with its own (destination, prefix, keep_vars)", "QTensor.save_to_state_dict", "entry call", "any frozen model")
-    chk.require("C10.R3", site, leaf, "only `type(x) == torch.Tensor` leaves are stored as tensors (subclasses are never stored as such)", "QTensor.save_to_state_dict", "leaf test", "a tensor subclass lands in the state_dict: weights_only loading and safetensors fail")
+    hp = positional_params(h)
+    if h is fn:
+        hp = hp[1:]
+        t = "self"
+        dest, prefix, keep = hp[:3]
+    else:
+        t, dest, prefix, keep = hp[:4]
+    loops = [n for n in h.body if isinstance(n, ast.For)]
+    inner_loop = meta_loop = None
+    for lp in loops:
+        paths = loop_body_paths(h, lp)
+        it = None
+        for pth in paths:
+            pass
+        # classify by the iterable after substitution of the flatten() unpacking
+        from ..core import subst
+        env = {}
+        for st in h.body:
+            if st is lp:
+                break
+            if isinstance(st, ast.Assign) and isinstance(st.targets[0], ast.Tuple) and isinstance(st.value, ast.Call) and isinstance(st.value.func, ast.Attribute) and st.value.func.attr == "__tensor_flatten__":
+                for i, x in enumerate(st.targets[0].elts):
+                    env[x.id] = i
+        itx = lp.iter
+        if isinstance(itx, ast.Name) and env.get(itx.id) == 0:
+            inner_loop = (lp, paths)
+        elif isinstance(itx, ast.Call) and isinstance(itx.func, ast.Attribute) and itx.func.attr == "items" and isinstance(itx.func.value, ast.Name) and env.get(itx.func.value.id) == 1:
+            meta_loop = (lp, paths)
+    if inner_loop is None or meta_loop is None:
+        chk.unknown("C10.R1", site, f"{qn}: loops over the inner tensor names / meta items not recognised")
+        return
+    lp, paths = inner_loop
+    name_e = None
+    leaf_ok = rec_ok = False
+    leaf_test = False
+    for pth in paths:
+        stores = [ef for ef in pth.effects if ef[0] == "substore" and U(ef[1]) == dest]
+        recs = [ef[1] for ef in pth.effects if ef[0] == "expr" and isinstance(ef[1], ast.Call) and isinstance(ef[1].func, ast.Name) and ef[1].func.id == h.name]
+        # the inner tensor is getattr(t, <elem>)
+        for ef in stores:
+            key, val = ef[2], ef[3]
+            if isinstance(key, ast.BinOp) and isinstance(key.op, ast.Add) and U(key.left) == prefix:
+                nm = U(key.right)
+                v = f"getattr({t}, {nm})"
+                facts = path_facts(pth)
+                is_leaf = facts.get(f"type({v}) == torch.Tensor")
+                leaf_test = leaf_test or is_leaf is True
+                if is_leaf is True and U(val) == f"{v} if {keep} else {v}.detach()":
+                    leaf_ok = True
+        for rc in recs:
+            a = [U(x) for x in rc.args]
+            if len(a) == 4 and a[1] == dest and a[3] == keep and a[0].startswith(f"getattr({t}, "):
+                nm = a[0][len(f"getattr({t}, "):-1]
+                facts = path_facts(pth)
+                if a[2] == f"{prefix} + {nm} + '.'" and facts.get(f"type({a[0]}) == torch.Tensor") is False:
+                    rec_ok = True
+                elif a[2] == f"{prefix} + {nm}" :
+                    chk.bad("C10.R1", site, qn, "nested prefix", f"{qn}: a nested tensor subclass is flattened under `{a[2]}` (no '.' separator)", "frozen int2/int4 weights: the packed payload keys do not match what the loader pops")
+                    rec_ok = None
+    if rec_ok is not None:
+        chk.require("C10.R1", site, rec_ok, f"{qn}: a nested tensor subclass is flattened recursively under prefix + name + '.'", qn, "nested prefix", "frozen int2/int4 weights: the packed payload keys do not match what the loader pops")
+    chk.require("C10.R1", site, leaf_ok, f"{qn}: every plain inner tensor of __tensor_flatten__ is stored under prefix + name (detached unless keep_vars)", qn, "leaf tensors stored", "any frozen model: a payload/scale is missing from the state_dict")
+    chk.require("C10.R3", site, leaf_test, "only `type(x) == torch.Tensor` leaves are stored as tensors (subclasses are never stored as such)", qn, "leaf test", "a tensor subclass lands in the state_dict: weights_only loading and safetensors fail")
+    lp, paths = meta_loop
+    ok_meta = False
+    for pth in paths:
+        for ef in pth.effects:
+            if ef[0] == "substore" and U(ef[1]) == dest and isinstance(ef[2], ast.BinOp) and U(ef[2].left) == prefix:
+                k, v = U(ef[2].right), U(ef[3])
+                if k.endswith("[0]") and v.endswith("[1]") and k[:-3] == v[:-3]:
+                    ok_meta = True
+    chk.require("C10.R1", site, ok_meta, f"{qn}: every meta entry is stored under prefix + name", qn, "meta stored", "any frozen model: qtype/axis/size are missing")
+    if h is not fn:
+        calls = [n for n in ast.walk(fn) if isinstance(n, ast.Call) and isinstance(n.func, ast.Name) and n.func.id == h.name and not any(n is x for x in ast.walk(h))]
+        ok_entry = len(calls) == 1 and [U(a) for a in calls[0].args] == ["self"] + positional_params(fn)[1:4]
+        chk.require("C10.R1", site, ok_entry, f"{qn} starts the recursion on self with its own (destination, prefix, keep_vars)", qn, "entry call", "any frozen model")
 
 
 def module_save(chk):
